@@ -73,7 +73,14 @@ var zzC07Names = map[string]zzC07Name{
 	"sub": {ascii: "test.example.org"},
 	"com": {ascii: "example.com"},
 	"idn": {ascii: "xn--e1afmkfd.xn--p1ai", unicode: "пример.рф"},
+	// Names with characters that a JSON encoder escapes.  Query names are
+	// arbitrary octets on the wire; these are their presentation forms.
+	"amp": {ascii: "r&d.example.org"},
+	"quo": {ascii: `x\"y.example.org`},
 }
+
+var zzC07NameKeys = []string{"org", "sub", "com", "idn", "amp", "quo"}
+var zzC07ClientKeys = []string{"plain", "cid", "cid2", "named", "v6"}
 
 type zzC07Client struct {
 	ip    string
@@ -84,6 +91,8 @@ type zzC07Client struct {
 var zzC07Clients = map[string]zzC07Client{
 	"plain": {ip: "192.168.10.5"},
 	"cid":   {ip: "192.168.10.6", cid: "kitchen-tv", cname: "Kitchen TV"},
+	// A second device behind the same address, told apart by its ClientID.
+	"cid2": {ip: "192.168.10.6", cid: "study-pc", cname: "Study PC"},
 	"named": {ip: "10.20.30.40", cname: "Dads-Laptop"},
 	"v6":    {ip: "2001:db8::17"},
 }
@@ -99,6 +108,12 @@ var zzC07Terms = map[string]string{
 	"idn_puny":    "xn--e1afmkfd",
 	"ip_exact":    `"192.168.10.5"`,
 	"ip_sub":      "192.168.10.",
+	"ip_shared":   `"192.168.10.6"`,
+	"amp_sub":     "r&d",
+	"amp_exact":   `"R&D.example.org"`,
+	"quo_sub":     `x\"y`,
+	"cid2_sub":    "study",
+	"cname2_exact": `"study pc"`,
 	"ip_v6":       "2001:db8",
 	"cid_sub":     "kitchen",
 	"cid_exact":   `"KITCHEN-tv"`,
@@ -114,6 +129,8 @@ func zzC07FindClient(ids []string) (c *Client, err error) {
 		switch id {
 		case "kitchen-tv":
 			return &Client{Name: "Kitchen TV"}, nil
+		case "study-pc":
+			return &Client{Name: "Study PC"}, nil
 		case "10.20.30.40":
 			return &Client{Name: "Dads-Laptop"}, nil
 		}
@@ -574,6 +591,45 @@ func (x *zzC07Log) serve(method, path, rawQuery string, body []byte) (code int, 
 	return w.Code, w.Body.Bytes(), pan
 }
 
+// serveScaled answers a search request with the scan limit of the request
+// (searchParams.maxFileScanEntries, 50000 in the handler) scaled down to scan.
+// It does what handleQueryLog does -- parseSearchParams, search under confMu,
+// entriesToJSON -- and overrides that one field in between; the package's own
+// TestQueryLogMaxFileScanEntries sets the field the same way.
+func (x *zzC07Log) serveScaled(rawQuery string, scan int) (code int, resp []byte, pan string) {
+	defer func() {
+		if v := recover(); v != nil {
+			pan = fmt.Sprint(v)
+		}
+	}()
+
+	l := x.l
+	r := httptest.NewRequest(http.MethodGet, "/control/querylog?"+rawQuery, nil)
+	ctx := r.Context()
+	params, err := l.parseSearchParams(ctx, r)
+	if err != nil {
+		return http.StatusBadRequest, []byte(err.Error()), ""
+	}
+
+	params.maxFileScanEntries = scan
+
+	var entries []*logEntry
+	var oldest time.Time
+	func() {
+		l.confMu.RLock()
+		defer l.confMu.RUnlock()
+
+		entries, oldest = l.search(ctx, params)
+	}()
+
+	resp, err = json.Marshal(l.entriesToJSON(ctx, entries, oldest, l.anonymizer.Load()))
+	if err != nil {
+		return http.StatusInternalServerError, []byte(err.Error()), ""
+	}
+
+	return http.StatusOK, resp, ""
+}
+
 func (x *zzC07Log) conf() (c Config) {
 	x.l.WriteDiskConfig(&c)
 
@@ -606,6 +662,20 @@ func (x *zzC07Log) waitFlush() (ok bool) {
 	}
 
 	return true
+}
+
+// ringNewest returns the timestamp of the newest ring element, 0 if none.
+func (x *zzC07Log) ringNewest() (t int64) {
+	x.l.bufferLock.RLock()
+	defer x.l.bufferLock.RUnlock()
+
+	x.l.buffer.ReverseRange(func(e *logEntry) (cont bool) {
+		t = e.Time.UnixNano()
+
+		return false
+	})
+
+	return t
 }
 
 func (x *zzC07Log) ringTimes() (ts []int64) {
@@ -834,7 +904,7 @@ func (x *zzC07Log) record(name, cli string, shape int) {
 	}
 
 	conf := x.conf()
-	before := x.ringTimes()
+	before := x.ringNewest()
 
 	t0 := time.Now().UnixNano()
 	x.l.Add(p)
@@ -853,10 +923,9 @@ func (x *zzC07Log) record(name, cli string, shape int) {
 	// Find the new entry: in the ring, or -- if the automatic flush has
 	// already taken it -- at the end of the file.
 	found := int64(0)
-	after := x.ringTimes()
-	if len(after) > 0 && after[len(after)-1] >= t0 && after[len(after)-1] <= t1 &&
-		(len(before) == 0 || before[len(before)-1] != after[len(after)-1]) {
-		found = after[len(after)-1]
+	after := x.ringNewest()
+	if after != 0 && after >= t0 && after <= t1 && before != after {
+		found = after
 	} else if !x.held {
 		if !x.waitFlush() {
 			x.discard = "automatic flush did not finish"
@@ -864,7 +933,7 @@ func (x *zzC07Log) record(name, cli string, shape int) {
 			return
 		}
 
-		cur, _ := zzC07FileTimes(filepath.Join(x.dir, queryLogFileName))
+		cur, _ := x.fileTimes(filepath.Join(x.dir, queryLogFileName))
 		if len(cur) > 0 && cur[len(cur)-1] >= t0 && cur[len(cur)-1] <= t1 {
 			found = cur[len(cur)-1]
 		}
@@ -949,10 +1018,20 @@ type zzC07Q struct {
 	Data                 []int
 	Oldest               int
 	SigData              []int
-	SigOldest            int
-	HasSig               bool
+	Sigs                 []zzC07Sig
+	Scan                 int
 	Tag                  string
 }
+
+// zzC07Sig is a defect signature TLC attached to a row: the reply (or, for a
+// window row, the selected sequence) the spec computes under the defect.
+type zzC07Sig struct {
+	Name   string
+	Data   []int
+	Oldest int
+}
+
+const zzC07DefaultScan = 50000
 
 func (q *zzC07Q) UnmarshalJSON(b []byte) (err error) {
 	var raw []json.RawMessage
@@ -960,14 +1039,14 @@ func (q *zzC07Q) UnmarshalJSON(b []byte) (err error) {
 		return err
 	}
 
-	if len(raw) != 9 && len(raw) != 10 {
+	if len(raw) != 10 && len(raw) != 11 {
 		return fmt.Errorf("query tuple of length %d", len(raw))
 	}
 
-	if len(raw) == 10 {
+	if len(raw) == 11 {
 		// The orchestrator's tag of the row: which part of the observation
 		// table it comes from.
-		if err = json.Unmarshal(raw[9], &q.Tag); err != nil {
+		if err = json.Unmarshal(raw[10], &q.Tag); err != nil {
 			return err
 		}
 	}
@@ -979,30 +1058,44 @@ func (q *zzC07Q) UnmarshalJSON(b []byte) (err error) {
 		}
 	}
 
-	var sig []json.RawMessage
-	if err = json.Unmarshal(raw[8], &sig); err != nil {
+	var sigs [][]json.RawMessage
+	if err = json.Unmarshal(raw[8], &sigs); err != nil {
 		return err
 	}
 
-	if len(sig) == 2 {
-		q.HasSig = true
-		if err = json.Unmarshal(sig[0], &q.SigData); err != nil {
+	for _, sg := range sigs {
+		if len(sg) != 3 {
+			return fmt.Errorf("signature of length %d", len(sg))
+		}
+
+		v := zzC07Sig{}
+		if err = json.Unmarshal(sg[0], &v.Name); err != nil {
 			return err
 		}
 
-		err = json.Unmarshal(sig[1], &q.SigOldest)
+		if err = json.Unmarshal(sg[1], &v.Data); err != nil {
+			return err
+		}
+
+		if err = json.Unmarshal(sg[2], &v.Oldest); err != nil {
+			return err
+		}
+
+		q.Sigs = append(q.Sigs, v)
 	}
 
-	return err
+	return json.Unmarshal(raw[9], &q.Scan)
 }
 
 func (q *zzC07Q) MarshalJSON() (b []byte, err error) {
-	sig := []any{}
-	if q.HasSig {
-		sig = []any{zzC07NZ(q.SigData), q.SigOldest}
+	sigs := []any{}
+	for _, sg := range q.Sigs {
+		sigs = append(sigs, []any{sg.Name, zzC07NZ(sg.Data), sg.Oldest})
 	}
 
-	return json.Marshal([]any{q.Older, q.Limit, q.Offset, q.Term, q.Status, q.Class, zzC07NZ(q.Data), q.Oldest, sig})
+	return json.Marshal([]any{
+		q.Older, q.Limit, q.Offset, q.Term, q.Status, q.Class, zzC07NZ(q.Data), q.Oldest, sigs, q.Scan,
+	})
 }
 
 type zzC07Reply struct {
@@ -1026,7 +1119,9 @@ func (x *zzC07Log) search(q *zzC07Q) (r zzC07Reply) {
 		v.Set("limit", zzC07ConcInt(q.Limit))
 	}
 
-	if q.Offset != 0 || x.rng.Intn(2) == 0 {
+	// An explicit offset=0 turns the server's scan limit off; that makes no
+	// difference below 50000 records, so it is sent now and then.
+	if q.Offset != 0 || q.Scan == zzC07DefaultScan && x.clock < 10000 && x.rng.Intn(2) == 0 {
 		v.Set("offset", zzC07ConcInt(q.Offset))
 	}
 
@@ -1040,7 +1135,16 @@ func (x *zzC07Log) search(q *zzC07Q) (r zzC07Reply) {
 
 	x.queries++
 	r.URL = v.Encode()
-	code, body, pan := x.serve(http.MethodGet, "/control/querylog", r.URL, nil)
+	var code int
+	var body []byte
+	var pan string
+	if q.Scan == zzC07DefaultScan || q.Scan == 0 && q.Offset != 0 {
+		code, body, pan = x.serve(http.MethodGet, "/control/querylog", r.URL, nil)
+	} else {
+		code, body, pan = x.serveScaled(r.URL, q.Scan)
+		r.URL += fmt.Sprintf(" [scan limit %d]", q.Scan)
+	}
+
 	switch {
 	case pan != "":
 		r.St, r.Msg = "panic", pan
@@ -1127,13 +1231,58 @@ func zzC07EqInts(a, b []int) (ok bool) {
 	return true
 }
 
-// admissible is QueryLog!Admissible on the row TLC computed.
-func zzC07Admissible(q *zzC07Q, r *zzC07Reply) (ok bool) {
-	if q.Class == "exact" {
-		return r.St == "ok" && zzC07EqInts(r.Data, q.Data) && r.Oldest == q.Oldest
+// zzC07WindowOK is QueryLog!AdmissibleWindow: universe is the sequence of
+// selected entries older than the request's cursor (newest first).
+func (x *zzC07Log) windowOK(older, limit int, universe []int, r *zzC07Reply) (ok bool) {
+	if r.St != "ok" {
+		return false
 	}
 
-	return r.St == "bad_request" || r.St == "ok" && zzC07IsSubseq(r.Data, q.Data)
+	n := len(r.Data)
+	if n > limit || n > len(universe) || !zzC07EqInts(r.Data, universe[:n]) {
+		return false
+	}
+
+	if n > 0 {
+		return r.Oldest == universe[n-1]
+	}
+
+	if len(universe) == 0 && r.Oldest == 0 {
+		return true
+	}
+
+	// A cursor: the timestamp of a stored entry (idOfTime knows only those
+	// ever recorded; the spec's "stored" is implied by the two bounds when
+	// something is still to come), older than the request's, newer than
+	// everything still to come.
+	if r.Oldest <= 0 || older > 0 && r.Oldest >= older {
+		return false
+	}
+
+	return len(universe) == 0 || r.Oldest > universe[0]
+}
+
+// admissible is QueryLog!Admissible on the row TLC computed.
+func (x *zzC07Log) admissible(q *zzC07Q, r *zzC07Reply) (ok bool) {
+	switch q.Class {
+	case "exact":
+		return r.St == "ok" && zzC07EqInts(r.Data, q.Data) && r.Oldest == q.Oldest
+	case "window":
+		return x.windowOK(q.Older, q.Limit, q.Data, r)
+	default:
+		return r.St == "bad_request" || r.St == "ok" && zzC07IsSubseq(r.Data, q.Data)
+	}
+}
+
+// zzC07Below returns the elements of the newest-first id list u below c.
+func zzC07Below(u []int, c int) (v []int) {
+	for _, id := range u {
+		if c == 0 || id < c {
+			v = append(v, id)
+		}
+	}
+
+	return v
 }
 
 // ---------------------------------------------------------------- payload
@@ -1697,13 +1846,22 @@ func (h *zzC07Harness) reportState(w *zzC07Walk, st zzC07Step, got *zzC07State) 
 // zzC07Signature recognises the two symptoms that checks/c07.py classifies as
 // known findings (the check decides; this only saves repeating the costly
 // fresh-object reproduction thousands of times for the same symptom).
-func zzC07Signature(q *zzC07Q, r *zzC07Reply) (sig string) {
+func (x *zzC07Log) signature(q *zzC07Q, r *zzC07Reply) (sig string) {
 	if r.St == "panic" && strings.Contains(r.Msg, "slice bounds out of range") {
 		return "panic"
 	}
 
-	if q.Class == "exact" && q.HasSig && r.St == "ok" && zzC07EqInts(r.Data, q.SigData) && r.Oldest == q.SigOldest {
-		return "skip"
+	for _, sg := range q.Sigs {
+		switch q.Class {
+		case "exact":
+			if r.St == "ok" && zzC07EqInts(r.Data, sg.Data) && r.Oldest == sg.Oldest {
+				return sg.Name
+			}
+		case "window":
+			if x.windowOK(q.Older, q.Limit, sg.Data, r) {
+				return sg.Name
+			}
+		}
 	}
 
 	return ""
@@ -1715,14 +1873,14 @@ func zzC07Signature(q *zzC07Q, r *zzC07Reply) (sig string) {
 // object instead and only counted.
 func (h *zzC07Harness) reportQuery(run *zzC07Run, row *zzC07StateRow, q *zzC07Q, r *zzC07Reply) {
 	w := run.asWalk()
-	if sig := zzC07Signature(q, r); sig != "" {
+	if sig := run.x.signature(q, r); sig != "" {
 		h.mu.Lock()
 		h.sigCount[sig]++
 		n := h.sigCount[sig]
 		h.mu.Unlock()
 		if n > 3 {
 			again := run.x.search(q)
-			if zzC07Signature(q, &again) != sig {
+			if run.x.signature(q, &again) != sig {
 				h.count("flaky")
 			}
 
@@ -1739,7 +1897,7 @@ func (h *zzC07Harness) reportQuery(run *zzC07Run, row *zzC07StateRow, q *zzC07Q,
 		kind = "flaky"
 	} else {
 		rep2 = r2.x.search(q)
-		if zzC07Admissible(q, &rep2) {
+		if r2.x.admissible(q, &rep2) {
 			kind = "flaky"
 		}
 	}
@@ -1779,7 +1937,13 @@ func (r *zzC07Run) observe(lite bool) {
 			break
 		}
 
-		if reduced && qi > 0 && (q.Tag == "f" || q.Tag == "x") {
+		if reduced && qi > 0 && (q.Tag == "f" || q.Tag == "x" || q.Tag == "w") {
+			continue
+		}
+
+		if q.Tag == "w" {
+			r.windowChain(row, q)
+
 			continue
 		}
 
@@ -1793,12 +1957,58 @@ func (r *zzC07Run) observe(lite bool) {
 			}
 		}
 
-		if zzC07Admissible(q, &rep) {
+		if r.x.admissible(q, &rep) {
 			continue
 		}
 
 		h.reportQuery(r, row, q, &rep)
 	}
+}
+
+// windowChain follows the cursors the real code hands out under a scaled scan
+// limit, from "older_than absent" until it says "end".  Every reply must obey
+// the window rule; the row carries the selected sequence.  (Each reply being
+// admissible implies that the pages concatenate to that sequence; it is
+// compared all the same.)
+func (r *zzC07Run) windowChain(row *zzC07StateRow, q0 *zzC07Q) {
+	var got []int
+	cur := 0
+	for range 4*len(row.St.Mem) + 4*len(row.St.Cur) + 4*len(row.St.Rot) + 8 {
+		q := *q0
+		q.Older = cur
+		q.Data = zzC07Below(q0.Data, cur)
+		q.Sigs = nil
+		for _, sg := range q0.Sigs {
+			q.Sigs = append(q.Sigs, zzC07Sig{Name: sg.Name, Data: zzC07Below(sg.Data, cur)})
+		}
+
+		if cur != 0 && len(r.x.exact) > cur/2 && r.x.exact[cur/2] == 0 {
+			// Cannot happen: a handed-out cursor is the time of an entry.
+			return
+		}
+
+		rep := r.x.search(&q)
+		if !r.x.admissible(&q, &rep) {
+			r.h.reportQuery(r, row, &q, &rep)
+
+			return
+		}
+
+		got = append(got, rep.Data...)
+		if rep.Oldest == 0 {
+			if !zzC07EqInts(got, q0.Data) {
+				rep.Msg = fmt.Sprintf("pages concatenate to %v", got)
+				r.h.reportQuery(r, row, q0, &rep)
+			}
+
+			return
+		}
+
+		cur = rep.Oldest
+	}
+
+	rep := zzC07Reply{St: "endless", Data: got}
+	r.h.reportQuery(r, row, q0, &rep)
 }
 
 // ---- planning
@@ -2028,6 +2238,7 @@ func zzC07Load(t *testing.T) (in *zzC07Input) {
 					N []string `json:"n"`
 					C []string `json:"c"`
 				} `json:"terms"`
+				RawMiss map[string][]string `json:"rawmiss"`
 			}
 
 			if err := json.Unmarshal(line, &tab); err != nil {
@@ -2048,6 +2259,26 @@ func zzC07Load(t *testing.T) (in *zzC07Input) {
 						if got := zzC07TermSelects(s, n, c); got != want {
 							t.Fatalf("term table: %q (%s) on name %s client %s: spec %v, strings %v", term, s, nk, ck, want, got)
 						}
+					}
+				}
+			}
+
+			// The table behind the escaped-name signature: which names a term
+			// selects by the name itself but not by the raw JSON text of the
+			// name up to its first double quote.
+			for term, miss := range tab.RawMiss {
+				for nk, n := range zzC07Names {
+					b, _ := json.Marshal(n.ascii)
+					raw := string(b[1 : len(b)-1])
+					if i := strings.IndexByte(raw, '"'); i >= 0 {
+						raw = raw[:i]
+					}
+
+					ts := zzC07Terms[term]
+					want := ts != "" && zzC07TermSelects(ts, n, zzC07Client{}) &&
+						!zzC07TermSelects(ts, zzC07Name{ascii: raw, unicode: n.unicode}, zzC07Client{})
+					if got := zzC07Has(miss, nk); got != want {
+						t.Fatalf("raw-miss table: %q on name %s (raw %q): spec %v, strings %v", term, nk, raw, got, want)
 					}
 				}
 			}
@@ -2179,7 +2410,7 @@ func (h *zzC07Harness) doProbe(wk *zzC07Walk) {
 	if wk.Probe != nil && (status == "ok" || len(wk.Steps) == 0) {
 		rep := r.x.search(wk.Probe)
 		res["got"] = rep
-		res["admissible"] = zzC07Admissible(wk.Probe, &rep)
+		res["admissible"] = r.x.admissible(wk.Probe, &rep)
 		res["q"] = wk.Probe
 	}
 
@@ -2201,8 +2432,7 @@ func TestZZVerifC07Payload(t *testing.T) {
 	w := zzNewWriter(t, "VERIF_OUT")
 	defer w.close()
 
-	names := []string{"org", "sub", "com", "idn"}
-	clients := []string{"plain", "cid", "named", "v6"}
+	names, clients := zzC07NameKeys, zzC07ClientKeys
 	n, bad := 0, 0
 	for _, anon := range []bool{false, true} {
 		x := zzC07NewLog(t.TempDir(), zzSeed())
@@ -2212,8 +2442,8 @@ func TestZZVerifC07Payload(t *testing.T) {
 
 		k := 0
 		for si := range zzC07Shapes {
-			for j := 0; j < 4; j++ {
-				x.record(names[(k+j)%4], clients[(k/4+j)%4], si)
+			for j := 0; j < 6; j++ {
+				x.record(names[(k+j)%len(names)], clients[(k/len(names)+j)%len(clients)], si)
 				k++
 			}
 		}
@@ -2326,8 +2556,7 @@ func TestZZVerifC07Trace(t *testing.T) {
 
 	x.incremental = true
 
-	names := []string{"org", "sub", "com", "idn"}
-	clients := []string{"plain", "cid", "named", "v6"}
+	names, clients := zzC07NameKeys, zzC07ClientKeys
 	reasons := make([]string, 0, len(zzC07Reasons))
 	for r := range zzC07Reasons {
 		reasons = append(reasons, r)
@@ -2391,14 +2620,14 @@ func TestZZVerifC07Trace(t *testing.T) {
 			}
 		}
 
-		for _, k := range []string{"ms", "en", "an"} {
+		for _, k := range []string{"ms", "en", "an", "n"} {
 			if _, ok := m[k]; !ok {
 				m[k] = 0
 			}
 		}
 
 		if _, ok := m["p"]; !ok {
-			m["p"] = map[string]any{"older": 0, "limit": 0, "offset": 0, "term": "none", "status": "none"}
+			m["p"] = map[string]any{"older": 0, "limit": 0, "offset": 0, "term": "none", "status": "none", "scan": 0}
 			m["r"] = map[string]any{"st": "none", "data": []int{}, "oldest": 0}
 		}
 
@@ -2424,6 +2653,12 @@ func TestZZVerifC07Trace(t *testing.T) {
 		if sh.name == "block-two-long-rules" {
 			longShape = i
 		}
+	}
+
+	if zzGetenv("VERIF_C07_SCANLOG") != "" {
+		zzC07ScanLog(t, x, emit, w)
+
+		return
 	}
 
 	enabled, anon := true, false
@@ -2453,7 +2688,7 @@ func TestZZVerifC07Trace(t *testing.T) {
 		switch {
 		case roll < 780:
 			reason := reasons[rng.Intn(len(reasons))]
-			name, cli := names[rng.Intn(4)], clients[rng.Intn(4)]
+			name, cli := names[rng.Intn(len(names))], clients[rng.Intn(len(clients))]
 			sh := zzC07ShapeFor(rng, reason)
 			if big && rng.Intn(2) == 0 {
 				sh = longShape
@@ -2521,6 +2756,16 @@ func TestZZVerifC07Trace(t *testing.T) {
 				}
 			}
 
+			// The scan limit of the request: the server's, or -- for one term
+			// search in four -- a scaled one, so that scan windows end inside
+			// files of any length.
+			q.Scan = zzC07DefaultScan
+			if q.Offset != 0 {
+				q.Scan = 0
+			} else if rng.Intn(4) == 0 {
+				q.Scan = []int{2, 3, 10, 100}[rng.Intn(4)]
+			}
+
 			r := x.search(q)
 			if q.Term == "none" && q.Status == "none" && r.St == "ok" {
 				for _, d := range x.checkPayload(&r, anon, x.where) {
@@ -2540,7 +2785,7 @@ func TestZZVerifC07Trace(t *testing.T) {
 			same := r2.St == r.St && zzC07EqInts(r2.Data, r.Data) && r2.Oldest == r.Oldest
 
 			emit("search", map[string]any{
-				"p": map[string]any{"older": q.Older, "limit": q.Limit, "offset": q.Offset, "term": q.Term, "status": q.Status},
+				"p": map[string]any{"older": q.Older, "limit": q.Limit, "offset": q.Offset, "term": q.Term, "status": q.Status, "scan": q.Scan},
 				"r": map[string]any{"st": r.St, "data": r.Data, "oldest": r.Oldest, "msg": r.Msg, "url": r.URL, "same": same},
 			})
 		case roll < 975:
@@ -2591,6 +2836,72 @@ func TestZZVerifC07Trace(t *testing.T) {
 	if err != nil || err2 != nil || !reflect.DeepEqual(full, inc) {
 		t.Fatalf("incremental projection diverged: %v %v\n%v\n%v", err, err2, full, inc)
 	}
+}
+
+// zzC07ScanLog is the real-scale scan-window history of direction B: the log
+// grows beyond the 50000 records one request examines, with the only entries
+// a search term selects at its old end, and the term is then searched through
+// the real handler by following the returned cursors.  VERIF_C07_MEM must be
+// larger than the number of records.
+func zzC07ScanLog(t *testing.T, x *zzC07Log, emit func(ev string, extra map[string]any), w *zzWriter) {
+	bulk := func(n int, name, cli, reason string) {
+		sh := zzC07ShapeFor(x.rng, reason)
+		for range n {
+			x.record(name, cli, sh)
+		}
+
+		emit("recn", map[string]any{"n": n, "name": name, "cli": cli, "reason": reason})
+	}
+
+	flush := func() {
+		_ = x.step(nil, &zzC07Step{Act: "flush"})
+		emit("flush", nil)
+	}
+
+	bulk(3, "idn", "named", "allow")
+	bulk(2, "quo", "cid2", "block")
+	flush()
+	bulk(zzC07DefaultScan+7, "org", "plain", "notfound")
+	flush()
+	bulk(4, "sub", "cid", "notfound")
+	if x.discard != "" {
+		w.put(map[string]any{"ev": "summary", "discard": x.discard})
+
+		return
+	}
+
+	ask := func(q *zzC07Q) (r zzC07Reply) {
+		q.Scan = zzC07DefaultScan
+		r = x.search(q)
+		if r.Data == nil {
+			r.Data = []int{}
+		}
+
+		r2 := x.search(q)
+		same := r2.St == r.St && zzC07EqInts(r2.Data, r.Data) && r2.Oldest == r.Oldest
+		emit("search", map[string]any{
+			"p": map[string]any{"older": q.Older, "limit": q.Limit, "offset": q.Offset, "term": q.Term, "status": q.Status, "scan": q.Scan},
+			"r": map[string]any{"st": r.St, "data": r.Data, "oldest": r.Oldest, "msg": r.Msg, "url": r.URL, "same": same},
+		})
+
+		return r
+	}
+
+	for _, f := range [][2]string{{"idn_puny", "none"}, {"cname_exact", "whitelisted"}, {"nomatch", "none"}, {"sub_example", "blocked"}, {"none", "whitelisted"}} {
+		cur := 0
+		for range 8 {
+			r := ask(&zzC07Q{Older: cur, Limit: 2, Term: f[0], Status: f[1]})
+			if r.St != "ok" || r.Oldest <= 0 {
+				break
+			}
+
+			cur = r.Oldest
+		}
+	}
+
+	ask(&zzC07Q{Limit: 10, Term: "none", Status: "none"})
+	w.put(map[string]any{"ev": "summary", "lines": 0, "records": x.clock, "discard": x.discard,
+		"payload_bad": 0, "queries": x.queries, "bytes": x.maxFile})
 }
 
 func zzC07B2I(b bool) (i int) {
